@@ -121,7 +121,7 @@ Reopen ==
            \* what the replayed handlers write while catching up (buffered, not synced)
            echo == IF ReplayEchoes /\ r.res = "ok" /\ Len(r.replay) > 0
                    THEN <<[id |-> NextId + r.neh0, kind |-> "rs", h |-> csH, size |-> SmallSize]>> ELSE << >>
-       IN /\ w' = IF Len(echo) = 0 THEN r.w ELSE WriteRec(r.w, echo[1])
+       IN /\ w' = IF Len(echo) = 0 THEN r.w ELSE WriteRec(r.w, Whole(echo[1]))
           /\ written' = written \o new \o echo
           /\ acked' = acked \cup {new[k].id : k \in 1..Len(new)}
           /\ curH' = csH /\ mode' = "run" /\ pend' = NoPend
